@@ -403,6 +403,34 @@ class Universe:
             if not objs:
                 return None
             o = rng.choice(objs)
+            if rng.random() < 0.12:
+                # the same name two, three or four times in one directory (different inodes)
+                ents = []
+                for ob in objs:
+                    if ob.ino != o.ino:
+                        continue
+                    rw = inf.read(ob.off, bs)
+                    q = 0
+                    while q + 8 <= bs and len(ents) < 4000:
+                        ino_, rl, nl_ = struct.unpack_from("<IHB", rw, q)
+                        if rl < 8 or rl % 4 or q + rl > bs:
+                            break
+                        nm = rw[q + 8:q + 8 + nl_]
+                        if ino_ and nl_ and nm not in (b".", b"..") and 8 + nl_ <= rl:
+                            ents.append((ob.off + q, rl, nm))
+                        q += rl
+                if len(ents) >= 3:
+                    src = rng.choice(ents)
+                    vict = [e for e in ents if e is not src and e[1] - 8 >= len(src[2])]
+                    rng.shuffle(vict)
+                    vict = vict[:rng.choice([1, 2, 2, 3])]
+                    if vict:
+                        pp = []
+                        for off_, rl, nm in vict:
+                            pp.append((off_ + 6, bytes([len(src[2])])))
+                            pp.append((off_ + 8, src[2]))
+                        return pp, ("dir_leaf", "name", "dup-x%d" % (len(vict) + 1),
+                                    "dir%d %r" % (o.ino, src[2][:24]))
             raw = inf.read(o.off, bs)
             offs = []
             p = 0
